@@ -4,6 +4,7 @@ import FimVerif.Proofs.Lemmas.StoreMerge
 import FimVerif.Proofs.Lemmas.StoreRefineAll
 import FimVerif.Proofs.Lemmas.StoreMergeFrame
 import FimVerif.Proofs.Lemmas.ARefAll
+import FimVerif.Proofs.Lemmas.ARefLocal
 import FimVerif.Proofs.Lemmas.StoreDisjointClone
 /-!
 # C05 — in-memory graph backends agree with each other and with the documented semantics
@@ -447,6 +448,40 @@ theorem disjoint_container_refines_reference (op : Op) (d : DStore.DStore) (h : 
   rw [hl]
   simp only [DStore.lift, DStore.sub_put_eq]
   exact this
+
+/-- the reference model is local: the reply and the effect on graph `g` of a single-graph operation that writes no
+    `GraphID` depend only on the part of the store that belongs to `g` (its nodes and the links among them) -/
+theorem reference_is_local (op : Op) (R : ARef) (hs : DStore.single op = true) (hk : op.keepsGraphId = true) :
+    (ARef.step op R).1 = (ARef.step op (R.restrict op.target)).1 ∧
+    (ARef.step op R).2.restrict op.target = (ARef.step op (R.restrict op.target)).2 :=
+  ARef.step_local op R hs hk
+
+/-- **backends_agree_rekey.**  Agreement of the two backends *without* the `NodeID` half of `keepsKeys`: on every inherited
+    single-graph method that writes no `GraphID` — `NodeID` rewrites by single, bulk, whole-graph updates and initial
+    properties included — both stores give the same reply and leave graph `g` the same, whenever graph `g` (its node
+    dictionaries and the links among them, by key) is the same in both before the call.  Proof: both refine the store-level
+    reference (`store_refines_reference`, `disjoint_container_refines_reference`), which is local (`reference_is_local`). -/
+theorem backends_agree_rekey (op : Op) (s : Store) (d : DStore.DStore) (hs : Store.Inv s) (hd : DStore.Inv d)
+    (hsingle : DStore.single op = true) (hk : op.keepsGraphId = true)
+    (hl : DStore.step op d = DStore.lift op.target (Store.step op) d)
+    (heq : (absS s).restrict op.target = (absS (DStore.sub d op.target)).restrict op.target) :
+    (Store.step op s).1 = (DStore.step op d).1 ∧
+    (absS (Store.step op s).2).restrict op.target = (absS (DStore.sub (DStore.step op d).2 op.target)).restrict op.target := by
+  have hm : op.isMerge = false := by
+    cases op <;> simp_all [DStore.single, AGraph.covers, Op.isMerge]
+  have a := store_refines_reference op s hs (by simp [hm])
+  have b := disjoint_container_refines_reference op d hd hl hm
+  have la := reference_is_local op (absS s) hsingle hk
+  have lb := reference_is_local op (absS (DStore.sub d op.target)) hsingle hk
+  refine ⟨?_, ?_⟩
+  · rw [a.1, b.1, la.1, lb.1, heq]
+  · rw [a.2, b.2, la.2, lb.2, heq]
+
+example : DStore.single (.updateNodeProperty "g" "n" "NodeID" (.str "m")) = true ∧
+    (Op.updateNodeProperty "g" "n" "NodeID" (.str "m")).keepsGraphId = true ∧
+    ∀ d, DStore.step (.updateNodeProperty "g" "n" "NodeID" (.str "m")) d =
+      DStore.lift "g" (Store.step (.updateNodeProperty "g" "n" "NodeID" (.str "m"))) d :=
+  ⟨by decide, by decide, fun _ => rfl⟩
 
 example (d : DStore.DStore) : DStore.step (.updateNodeProperty "g" "n" "GraphID" (.str "h")) d =
     DStore.lift "g" (Store.step (.updateNodeProperty "g" "n" "GraphID" (.str "h"))) d := rfl
